@@ -53,7 +53,7 @@ class _Recorder(object):
         return getattr(self._o, n)
 
 
-def dense_obs(sc, system, f):
+def dense_obs(sc, system, f, const_marks=()):
     dt = np.dtype(sc.get("dtype", "float64"))
     eps = num.eps_of(dt)
     sol = system.sol
@@ -126,11 +126,16 @@ def dense_obs(sc, system, f):
                 rec["tolUnits"] = twins.tol_units(v, y[i], rt, at)
         out["queries"].append(rec)
     prev = None
-    for p in pieces:
+    for ip, p in enumerate(pieces):
         if not all(hasattr(p, a) for a in ("t0", "t1", "p0", "p1", "m0", "m1")):
             continue
-        f0 = f(p.t0, p.p0)
-        f1 = f(p.t1, p.p1)
+        # the right-hand side of a piece is the user's function with the constants in force when the piece was made
+        consts = dict(sc.get("constants") or {})
+        for n0, c in const_marks:
+            if ip >= n0:
+                consts = c
+        f0 = f(p.t0, p.p0, **consts)
+        f1 = f(p.t1, p.p1, **consts)
 
         def su(m, fv):
             worst = 0
@@ -288,7 +293,7 @@ def observe(sc):
         dt = np.dtype(sc.get("dtype", "float64"))
         f = scen.problem(sc.get("problem", "osc"), dt)
         ev = event_obs(sc, lg, system, f) if sc["ops"][0].get("events") else None
-        dn = dense_obs(sc, system, f) if sc.get("dense") else None
+        dn = dense_obs(sc, system, f, getattr(lg, "const_marks", ())) if sc.get("dense") else None
         rets = [e for e in lg.events if e["e"] == "ApiRet"]
         ok = bool(rets) and rets[-1].get("err") is None
         if dn is not None:
